@@ -119,6 +119,23 @@ CHECKS = {
             "position (siblings, cousins), first and later fills, and unshared controls",
             "cycles (a node below itself) are probed on the implementation only",
             "section 6 C16"),
+    "C17": ("proof",
+            "Coq theorems for every arithmetic instance: serializable / cached / named applied in any "
+            "order and multiplicity (at most one name) yield the wrapper determined by which of them "
+            "were applied (hence equal wrappers with the same name), a second name raises, and a "
+            "wrapper - cached or not - returns on every call of every call sequence what the "
+            "function returns for that argument (cache invariant by induction over the calls; "
+            "instantiated at the exact instance for the model's argument comparison); " + TIE +
+            ": wrapper scenarios (lambda / def / string expression, wrapper sequences incl. "
+            "permutations, repeated and second names, call sequences with repeats, NaN, inf, raising "
+            "calls) and trees whose quantities are built in every form, filled with dict / attribute / "
+            "bare-scalar records, are compared with the model's expression evaluator",
+            "the meaning of a string expression is Python's eval: that it equals the model's "
+            "[eval] of the same expression is established by the correspondence on the generated "
+            "grammar (+, -, *, <, fields, constants), not proved; numpy.array_equal (the cache's "
+            "argument comparison) is assumed to accept only ==-equal arguments; keyword arguments, "
+            "numpy record arrays and pandas frames as records are not modelled",
+            "section 6 C17"),
 }
 
 ALL = ["C%02d" % i for i in range(1, 18)]
